@@ -166,13 +166,20 @@ def run(res, args):
                     stats['strtbl_only_refusals'] = stats.get('strtbl_only_refusals', 0) + 1
                     T = d['tables']
                     tagn = {bytes.fromhex(r[0]) for r in T[str(lang['tags'])]['rows']} if lang['tags'] is not None else set()
-                    attn = {bytes.fromhex(r[0]) for r in T[str(lang['attrs'])]['rows']} if lang['attrs'] is not None else None
+                    attn = None
+                    if lang['attrs'] is not None:
+                        attn = {}
+                        for r in T[str(lang['attrs'])]['rows']:
+                            attn.setdefault(bytes.fromhex(r[0]), []).append(bytes.fromhex(r[1]) if r[1] else b'')
                     need = False
                     for e in docmp.doc_of_expat(src_runs[j])[2]:
                         if e[0] == 'S':
                             if docmp.local(e[1]) not in tagn:
                                 need = True
-                            if attn is not None and any(docmp.local(a) not in attn and not a.startswith(b'xmlns') for a, _ in e[2]):
+                            # (an attribute needs a literal name too when every row of its name carries a start
+                            # value and none of them begins the value)
+                            if attn is not None and any(not a.startswith(b'xmlns') and not any(v.startswith(sv) for sv in attn.get(docmp.local(a), []))
+                                                        for a, v in e[2]):
                                 need = True
                     if not need:
                         report('the document is refused only when the string table is disabled although every name is in the tables of its language', xs[j][:400], exc)
